@@ -27,6 +27,8 @@ func TakeRuntimeContext() *RuntimeContext {
 }
 
 func ReleaseRuntimeContext(ctx *RuntimeContext) {
+	// the caller's context belongs to the finished call only
+	ctx.Option.Context = nil
 	runtimeContextPool.Put(ctx)
 }
 
